@@ -236,6 +236,31 @@ for _f, _d, _ in FOLD_FUNCS:
     make_fold_func(_f, _d)
 
 
+@cond('C09.fold.coalesce-nested', quick=180, thorough=480,
+      bounds='coalesce(p / q, r / u, v / 1) and coalesce(int(s), k): operands that are themselves foldable and fold to a typed '
+             'NULL (division by zero, failed cast) at any position; p, r, v in 1..2 and q, u in 0..1 enumerated, k symbolic int, '
+             "s from {'12', 'x', '', '-3'}: folded from literals == evaluated per row from columns",
+      symbolic='k', enumerated='p, q, r, u, v, s, form',
+      params={'p': int, 'q': int, 'r': int, 'u': int, 'v': int, 'k': int, 's': int, 'form': bool}, group='C09.fold')
+def fold_coalesce_nested(p, q, r, u, v, k, s, form):
+    s = pick(['12', 'x', '', '-3'], s)
+    if form:
+        # (symbolic int / symbolic int goes through Decimal: enumerated instead, R3)
+        p, r, v = enum_int(p, 1, 2), enum_int(r, 1, 2), enum_int(v, 1, 2)
+        q, u = enum_int(q, 0, 1), enum_int(u, 0, 1)
+        names, values, types_ = ['p', 'q', 'r', 'u', 'v'], [p, q, r, u, v], [int] * 5
+        build = lambda a: func('coalesce', ast.Div(a[0], a[1]), ast.Div(a[2], a[3]), ast.Div(a[4], const(1)))   # noqa: E731
+    else:
+        names, values, types_ = ['s', 'k'], [s, k], [str, int]
+        build = lambda a: func('coalesce', func('int', a[0]), a[1])   # noqa: E731
+    table = HTable('t', list(zip(names, types_)), [tuple(values)])
+    d1, r1 = run_cursor(connect(t=table), sel([target(build([const(x) for x in values]), 'r')], 't'))
+    d2, r2 = run_cursor(connect(t=table), sel([target(build([col(n) for n in names]), 'r')], 't'))
+    if not same_rows(r1, r2) or d1 != d2:
+        return 'folded-coalesce-differs'
+    return 'ok'
+
+
 # ---------------------------------------------------------------------------
 # C09.history
 
@@ -309,6 +334,42 @@ for _k1 in range(len(STATEMENTS)):
         for _reuse in (False, True):
             if (_k1, _k2) in _PAIRS_QUICK:
                 make_history(_k1, _k2, _reuse)
+
+
+LEDGER_STATEMENTS = [
+    ('SELECT account, sum(position) AS s GROUP BY account ORDER BY account', None),
+    ('SELECT date, account FROM #postings WHERE number > %s', (0,)),
+    ('SELECT date, account, position FROM OPEN ON 2019-01-10 CLOSE ON 2019-02-01 CLEAR', None),
+    ('SELECT date, account, position FROM year = 2019 OPEN ON 2019-01-10 WHERE number > %s', (-5000,)),
+    ('BALANCES FROM CLOSE ON 2019-02-01', None),
+    ('SELECT date, type FROM #entries', None),
+    ('SELECT account, balance FROM CLEAR WHERE account ~ %s', ('Assets',)),
+    ('JOURNAL "Assets" FROM OPEN ON 2019-01-15', None),
+    ('SELECT date, account FROM has_account("Assets:Bank") CLOSE', None),
+]
+
+
+@cond('C09.history.ledger', quick=180,
+      bounds=f'the fixture ledger (Beancount-backed tables); every ordered pair out of {len(LEDGER_STATEMENTS)} statements (no FROM '
+             'clause, FROM #table, FROM expression, OPEN / CLOSE / CLEAR periods, BALANCES, JOURNAL, parameters) executed one '
+             'after the other on one connection: the second result equals its result on a fresh connection',
+      symbolic='(none)', enumerated='statement pair', params={'i': int, 'j': int},
+      note='solver-enumerated and executed natively (table preparation runs beancount.ops.summarize on the concrete ledger)')
+def history_ledger(i, j):
+    i = enum_int(i, 0, len(LEDGER_STATEMENTS) - 1)
+    j = enum_int(j, 0, len(LEDGER_STATEMENTS) - 1)
+
+    def run():
+        from .. import ledger
+        def result(conn, k):
+            text, params = LEDGER_STATEMENTS[k]
+            cur = conn.execute(text, params)
+            return [(c.name, c.datatype) for c in cur.description], cur.fetchall()
+        fresh = result(ledger.connect(), j)
+        conn = ledger.connect()
+        result(conn, i)
+        return result(conn, j) == fresh
+    return 'ok' if native(run) else 'result-depends-on-the-statement-executed-before'
 
 
 @cond('C09.executemany', quick=120,
